@@ -15,8 +15,12 @@ from ..ctx import Ctx, Machinery
 from ..evidence import seed
 
 
+PRELUDE = "[a]: /url 'title'\n[foo]: /foo\n\n[a] and [foo][]\n"
+
+
 def _one(item):
     text, rec = item
+    impl.parse(PRELUDE, timeout=3)          # another document went through the same parser first: it must leave nothing behind
     a = psweep.analyse(text, want=("html",))
     try:
         model = canon.freeze(canon.from_model(rec["tree"]))
